@@ -535,7 +535,7 @@ def main(rep: Report, replay: dict | None) -> None:
                 if t:
                     others.append(t)
         phases["record_ops"] = round(time.time() - t1, 1)
-        f_vops = ex.submit(validate, others, "c04ops", max(1, math.ceil(len(others) / 2)))
+        f_vops = ex.submit(validate, others, "c04ops", max(1, math.ceil(len(others) / (4 if thorough else 1))))
 
         # spec -> code: replay every transition of the history machine into the real code
         res_hist = f_hist.result()
@@ -558,7 +558,7 @@ def main(rep: Report, replay: dict | None) -> None:
             if walks:
                 rep.sample({"replayed_walk": [[e["op"]["o"]["op"], e["op"]["o"]["k"], e["to"]["sz"], e["to"]["rendered"]]
                                               for e in walks[len(walks) // 2][:6]]})
-        f_vreplay = ex.submit(validate, replayed, "c04replay", max(1, math.ceil(len(replayed) / 2)))
+        f_vreplay = ex.submit(validate, replayed, "c04replay", max(1, math.ceil(len(replayed) / (2 if thorough else 1))))
         phases["replay"] = round(time.time() - t2, 1)
 
         check_design(rep, f_mc.result(), thorough)
